@@ -216,7 +216,7 @@ def conditions(tier):
             out.append(Condition(f"perturb/{k}/{n}", make_condition(perturb(k, n, maxlen), _nstr(k, n), 2, 0),
                                  about=f"{k} with {n} children: attribute changed/dropped/added, child field changed, "
                                        f"child dropped/duplicated/swapped/appended at every index, and the unperturbed copy",
-                                 encodes=ENC, bounds=f"{n} children; strings len<={maxlen}", timeout=600))
+                                 encodes=ENC, bounds=f"{n} children; strings len<={maxlen}", timeout=900))
     for p in PART_SPECS:
         out.append(Condition(f"part_perturb/{p}", make_condition(part_perturb(p, maxlen), 8, 4, 0),
                              about=f"{p}: every single-point perturbation", encodes=ENC,
